@@ -210,6 +210,34 @@ fn check_fixed<const N: usize>(r: &mut Report) {
     }
 }
 
+/// Boundary slice of the same checks for the Miri interpreter.
+pub fn miri_slice(r: &mut Report, n: usize, shard: usize) -> usize {
+    let mut ops = 0;
+    let trailing: Vec<u8> = (0..40u8).collect();
+    for st in STYLES {
+        for l in [0usize, 1, 9, 10, 99, 100, 126, 127, 128, 129, 254, 255, 256, 257, 999, 1000, 65534, 65535] {
+            if l <= st.max() {
+                check_roundtrip(r, st, l, &trailing);
+                ops += 1;
+            }
+        }
+        check_parser(r, st, &[]);
+        for a in (shard..256).step_by(16) {
+            check_parser(r, st, &[a as u8]);
+            check_parser(r, st, &[a as u8, 0xf3]);
+            check_parser(r, st, &[0x82, a as u8]);
+            check_parser(r, st, &[0xff, a as u8]);
+            check_parser(r, st, &[a as u8, 1, 2]);
+            ops += 5;
+            if ops >= n * 4 {
+                break;
+            }
+        }
+    }
+    fixed_cases!(r, 1, 2, 8, 17);
+    ops
+}
+
 pub fn run(ctx: &Ctx) -> i32 {
     let mut report = ctx.report("C16", "exploration");
     report.rule = "exhaustive: (style, length, trailing-data) for every representable length of BER-TLV/APDU (0..65535), LLVAR (0..99), LLLVAR (0..999), Fixed<1..17> (payload 0..N) with trailing data of 0/1/300 bytes; plus every byte string of length 0..3 through the four prefix parsers. A case is non-trivial when the statement claims a definite outcome for it (all round-trip cases; parser inputs whose prefix bytes are well-formed for the style). Distinct = distinct (style,length,trailing) / (parser,input).".into();
@@ -257,5 +285,8 @@ pub fn run(ctx: &Ctx) -> i32 {
         }
     });
     report.extra.insert("styles".into(), json!(["Tlv(BER)", "Adpu", "Llv", "Lllv", "Fixed<1..17>"]));
+    if !ctx.quick() && std::env::var("VERIF_NO_MIRI").is_err() {
+        crate::c02::miri_tier(&mut report, "c16", 16, 100, ctx.seed);
+    }
     report.finish()
 }
